@@ -430,6 +430,7 @@ def run(tier):
     ncorr = collections.Counter()
     findings = collections.OrderedDict()   # key tuple -> (key, detail, what, prio)
     seen_kinds = collections.Counter()
+    compiled_wit = {}
     evals = 0
     nontrivial = set()
     samples = []
@@ -442,6 +443,8 @@ def run(tier):
         """one witness per class of failing input; a lower prio replaces an earlier witness (clearer instance)"""
         kt = (key["kind"], key.get("consumer_stride_y")) + ((key.get("axis"), key.get("stride")) if key["kind"].startswith("tap_mismatch") else ())
         seen_kinds[key["kind"] + ("/compiled" if detail.get("net") else "")] += 1
+        if detail.get("net"):
+            compiled_wit.setdefault(kt, detail)
         if kt not in findings or prio < findings[kt][3]:
             findings[kt] = (key, detail, what, prio)
 
@@ -1138,6 +1141,8 @@ def run(tier):
         for f in ("H", "kernel", "stride", "padding", "stripe_height", "net", "seed", "extent", "read_offset"):
             if f in detail and f not in full_key:
                 full_key[f] = detail[f]
+        if kt in compiled_wit and compiled_wit[kt] is not detail:
+            detail = dict(detail, also_seen_in_a_real_compilation=compiled_wit[kt])
         if res.violation(full_key, detail, "C10: " + what):
             reported = True      # a failing input that is not a recorded known finding
     if not b["ok"] and not reported:
